@@ -99,6 +99,20 @@ pub open spec fn spec_hash_from(lines: Seq<Seq<char>>, i: int) -> Option<Seq<cha
     else { spec_hash_from(lines, i + 1) }
 }
 
+/// a line that starts with the hash prefix is a `//` line (so the two tests of the scan may come in either order)
+// props: C15
+pub proof fn lemma_hash_prefix_is_comment()
+    ensures forall|l: Seq<char>| #[trigger] is_prefix("// @sha256 "@, l) ==> is_prefix("//"@, l)
+{
+    reveal_strlit("// @sha256 "); reveal_strlit("//");
+    assert forall|l: Seq<char>| #[trigger] is_prefix("// @sha256 "@, l) implies is_prefix("//"@, l) by {
+        let hp = "// @sha256 "@;
+        assert(l.subrange(0, 11) == hp);
+        assert(l.subrange(0, 11)[0] == l[0] && l.subrange(0, 11)[1] == l[1]);
+        assert(l.subrange(0, 2) =~= "//"@);
+    }
+}
+
 /// the remainder of the first line starting with `// @sha256 ` inside the leading block of `//` lines
 pub open spec fn spec_hash(text: Seq<char>) -> Option<Seq<char>> {
     spec_hash_from(spec_lines(text), 0)
